@@ -418,7 +418,49 @@ def attrs_check(case, col=None, _twin=False):
             if col is not None:
                 col.count("attrs:safe-then-untrusted twin render")
             fails = [("after rendering the same attributes as safe strings, the untrusted twin: " + m, "twin:" + b) for m, b in tf]
+    if not fails and not _twin and case.get("host", "page") == "page":
+        fails = _second_use_of_defaults(case, col)
     return fails
+
+
+def _second_use_of_defaults(case, col=None):
+    """History of two tags that are handed the SAME `defaults` dict object: first the case as generated, then the same tag
+    with an empty `attrs` dict. What the first tag did must not show in the second one (expected = model of the second
+    case from pristine data)."""
+    import copy
+
+    from django.template import Context, Template
+
+    ps = case["params"]
+    has_d = any(p["k"] in ("pos", "kw") and p.get("what") == "defaults" and p.get("items") and not p.get("fall") for p in ps)
+    ai = [i for i, p in enumerate(ps) if p["k"] in ("pos", "kw") and p.get("what") == "attrs" and p.get("items") and not p.get("fall")]
+    if not has_d or not ai:
+        return []
+    case2 = copy.deepcopy(case)
+    case2["params"][ai[0]]["items"] = []
+    try:
+        expected2, _v, _i = attrs_model(case2)
+        tag1, ctx1, _f1 = attrs_build(case)
+        tag2, ctx2, _f2 = attrs_build(case2)
+    except OutOfDomain:
+        return []
+    if "d_" not in ctx1 or "d_" not in ctx2:
+        return []
+    ctx2["d_"] = ctx1["d_"]  # the caller keeps ONE defaults dict and uses it for both tags
+    try:
+        Template(tag1).render(Context(ctx1))
+        out = Template(tag2).render(Context(ctx2))
+    except Exception:  # noqa - judged by the main check
+        return []
+    ev = html_events("<x " + out + ">")
+    if len(ev) != 1 or ev[0][0] != "start":
+        return []
+    got = dict(ev[0][2])
+    if col is not None:
+        col.count("attrs:second tag sharing the caller's defaults dict")
+    if got != expected2:
+        return [("two html_attrs tags given the same `defaults` dict object: the second one (empty attrs) rendered %r, expected %r - attributes of the first tag (%s) show in it | second tag: %s" % (got, expected2, tag1, tag2), "second-use-of-defaults")]
+    return []
 
 
 def _attrs_check(case, col=None):
